@@ -305,6 +305,9 @@ impl MultiRecordLog {
             // contain the truncate positions it self won't be GC'ed.
             let _file_number = self.record_log_writer.current_file().clone();
             num_bytes_written += self.record_empty_queues_position()?;
+            // We are about to remove files: whatever supersedes their content (not only the
+            // positions of the empty queues) must be durable first, under every persist policy.
+            self.persist(PersistAction::FlushAndFsync)?;
             self.record_log_writer.directory().gc()?;
         }
         // only execute the following if we are above the debug  level in tokio tracing
